@@ -45,6 +45,9 @@ ASSUMPTIONS = [
 ]
 
 
+DISK_TEXT = "FUNCTION_BLOCK Counter\nVAR stale : INT; END_VAR\nstale := stale + 2;\nEND_FUNCTION_BLOCK\n"
+
+
 def state_after(history):
     """contents per uri id after a history of (kind, uid, doc)"""
     st = {}
@@ -184,6 +187,9 @@ def search(run, info):
         histories.append([("O", 2, 0), ("O", 1, d), ("C", 2, d)])
     fresh_cache = {}
     cli_cache = {}
+    # the documents are files that exist, with content on disk that no message carries (a function block named like the one of
+    # document 0, which document 4 depends on): the disk is not part of the history
+    L.put_on_disk(os.path.join(wd, "c11-disk"), DISK_TEXT)
 
     def versions_of(h):
         ver = {}
@@ -335,6 +341,7 @@ def replay(run, rep):
         return 2
     texts = [t for _, t in L.DOCS]
     binp = vlib.ironplcc_bin()
+    L.put_on_disk(os.path.join(run.workdir, "c11-disk"), DISK_TEXT)
     h = [tuple(x) for x in h]
     msgs = []
     ver = {}
